@@ -350,14 +350,118 @@ Proof.
         specialize (Hall _ HB). rewrite (ground_args_match s (aargs a) pvs cs (apred a) He Hcs) in Hall. discriminate.
       * apply in_map_iff. exists (t, prems). split; [reflexivity | exact Hp].
     + apply holds_pure_inv in Hh as (us & Hsp & Hu); [|intros a; discriminate|intros a; discriminate].
-      rewrite (step_pure_single _ _ _ _ (fun op l0 r0 => ltac:(discriminate)) Hsp Hu) in Hsp.
+      rewrite (step_pure_single (PEq l r) s us u ltac:(intros; discriminate) Hsp Hu) in Hsp.
       destruct (IH (S k) u t HI Hna' Hng' Hnc' Hr) as (prems & Hp).
       exists prems. simpl. simpl in Hsp. rewrite Hsp. exact Hp.
     + apply holds_pure_inv in Hh as (us & Hsp & Hu); [|intros a; discriminate|intros a; discriminate].
-      rewrite (step_pure_single _ _ _ _ (fun op l0 r0 => ltac:(discriminate)) Hsp Hu) in Hsp.
+      rewrite (step_pure_single (PIneq l r) s us u ltac:(intros; discriminate) Hsp Hu) in Hsp.
       destruct (IH (S k) u t HI Hna' Hng' Hnc' Hr) as (prems & Hp).
       exists prems. simpl. simpl in Hsp. rewrite Hsp. exact Hp.
     + exfalso. apply (Hnc op l r). left. reflexivity.
 Qed.
 
 End Complete.
+
+(* ---- a saturated table is closed under the rules, hence contains the least model *)
+Section Layers.
+Variable P : list clause.
+Variables base St : list fact.
+
+(* what the completeness argument needs of a clause of the stratum with base B:
+   transform-free, no built-in comparison atoms, ground negation, and the evaluated
+   store judges its negated atoms like B (stratification: the negated predicates are
+   complete in B) *)
+Definition clause_fine (B : factset) (c : clause) : Prop :=
+  clet c = [] /\ no_cmp (cbody c) /\ neg_ground_from (cbody c) [] /\
+  neg_agree (cbody c) (fun f => In f St) B.
+
+Lemma candidates_in tbl e c : forall Q k i,
+  nth_error Q i = Some c -> In e (clause_candidates St tbl (k + i) c) -> In e (candidates St tbl k Q).
+Proof.
+  induction Q as [|c0 Q IH]; intros k i Hn He; [destruct i; discriminate|].
+  simpl. apply in_or_app. destruct i as [|i]; simpl in Hn.
+  - injection Hn as ->. left. rewrite Nat.add_0_r in He. exact He.
+  - right. apply (IH (S k) i Hn). replace (S k + i)%nat with (k + S i)%nat by lia. exact He.
+Qed.
+
+Lemma keys_entry tbl f : In f (keys tbl) -> exists n, In (f, n) tbl.
+Proof.
+  unfold keys. intros H. apply in_map_iff in H as ([g n] & E & H). simpl in E. subst g. exists n. exact H.
+Qed.
+
+Lemma saturated_closed tbl R B :
+  (forall e, In e (candidates St tbl 0 P) -> In (fst e) (keys tbl)) ->
+  (forall c, In c R -> In c P /\ clause_fine B c) ->
+  (forall f, B f -> In f (keys tbl)) ->
+  forall f, lfp R B f -> In f (keys tbl).
+Proof.
+  intros Hsat HR HB f Hf. induction Hf as [f Hf | I c f _ IH Hc (t & Hs & He)].
+  - apply HB, Hf.
+  - destruct (HR c Hc) as (HcP & Hl & Hnc & Hng & Hna).
+    destruct (solve_pf_complete St B tbl I (cbody c) 0 [] t
+                (fun g Hg => keys_entry tbl g (IH g Hg)) Hna Hng Hnc Hs) as (prems & Hp).
+    apply In_nth_error in HcP as (ri & Hri).
+    apply (Hsat (f, PDerived ri [] f false prems)).
+    apply (candidates_in tbl _ c P O ri Hri). simpl.
+    unfold clause_candidates. rewrite Hl. simpl.
+    apply in_fmap. exists (t, prems). split; [exact Hp|]. simpl. rewrite He. reflexivity.
+Qed.
+
+Fixpoint strat_ok (B : factset) (layers : list (list Z)) : Prop :=
+  match layers with
+  | [] => True
+  | ps :: rest => (forall c, In c (layer_rules P ps) -> clause_fine B c) /\
+                  strat_ok (lfp (layer_rules P ps) B) rest
+  end.
+
+Lemma saturated_slfp tbl layers : forall B : factset,
+  (forall e, In e (candidates St tbl 0 P) -> In (fst e) (keys tbl)) ->
+  (forall f, B f -> In f (keys tbl)) -> strat_ok B layers ->
+  forall f, slfp P layers B f -> In f (keys tbl).
+Proof.
+  induction layers as [|ps rest IH]; intros B Hsat HB Hok f Hf; simpl in *.
+  - apply HB, Hf.
+  - destruct Hok as [Hfine Hrest].
+    apply (IH (lfp (layer_rules P ps) B) Hsat); auto.
+    apply (saturated_closed tbl (layer_rules P ps) B Hsat); auto.
+    intros c Hc. split; [|apply Hfine, Hc]. unfold layer_rules in Hc. apply filter_In in Hc. tauto.
+Qed.
+
+Lemma fold_add_has l : forall tbl e, In e l -> In (fst e) (keys (fold_left add_entry l tbl)).
+Proof.
+  induction l as [|x l IH]; intros tbl e He; [destruct He|]. simpl. destruct He as [<-|He].
+  - assert (Hx : In (fst x) (keys (add_entry tbl x))).
+    { unfold add_entry. destruct (mem (fst x) (keys tbl)) eqn:Hm; [apply mem_spec; exact Hm|].
+      rewrite keys_app. apply in_or_app. right. left. reflexivity. }
+    revert Hx. generalize (add_entry tbl x). clear. induction l as [|y l IHl]; intros tbl H; simpl; [exact H|].
+    apply IHl. apply add_entry_keys. exact H.
+  - apply IH, He.
+Qed.
+
+Lemma find_proof_some tbl f : In f (keys tbl) -> exists n, find_proof tbl f = Some n.
+Proof.
+  induction tbl as [|[g m] tbl IH]; simpl; [intros []|].
+  intros [->|H].
+  - assert (E : fact_eqb f f = true) by (apply fact_eqb_spec; reflexivity). rewrite E. eauto.
+  - destruct (fact_eqb f g); eauto.
+Qed.
+
+Lemma explain_ref_fuel_complete fuel layers tbl :
+  explain_ref_fuel fuel P base St = Some tbl ->
+  (forall f, In f base -> In f St) ->
+  strat_ok (fun f => In f base) layers ->
+  forall f, slfp P layers (fun g => In g base) f ->
+  exists n, find_proof tbl f = Some n /\ check_proof P base St f n = true.
+Proof.
+  intros H Hbs Hok f Hf. unfold explain_ref_fuel in H.
+  destruct (iterate_saturated P St fuel _ _ H) as [Hk Hsat].
+  assert (Hin : In f (keys tbl)).
+  { apply (saturated_slfp tbl layers (fun g => In g base) Hsat); auto.
+    intros g Hg. apply Hk. unfold init_tbl.
+    apply (fold_add_has _ [] (g, PLeaf g)). apply in_map_iff. exists g. split; [reflexivity|].
+    apply filter_In. split; [exact Hg|]. apply mem_spec. apply Hbs, Hg. }
+  destruct (find_proof_some tbl f Hin) as (n & Hn). exists n. split; [exact Hn|].
+  apply (explain_ref_fuel_sound P base St fuel tbl f n H Hn).
+Qed.
+
+End Layers.
